@@ -16,8 +16,8 @@ func checkC11(c *Ctx) {
 		"the cache tables are accessed only under the mutex; eviction and insertion keep the map and the recency list in step."
 	c.NotDec = "collision resistance of SHA-256 and unambiguity of the concatenated key encoding; LRU order as such (irrelevant to verdicts given the clauses above)."
 	c.Assume = append(c.Assume, "SHA-256 is collision resistant; QuorumSignature.ToBytes and the ordered participant ids determine what the delegated verifier checks")
-	c.Expect("C11.1", 12)
-	c.Expect("C11.6", 4)
+	c.Expect("C11.1", 15)
+	c.Expect("C11.6", 5)
 
 	check := p.Method("security/cert", "Cache", "check")
 	insert := p.Method("security/cert", "Cache", "insert")
@@ -57,7 +57,7 @@ func checkC11(c *Ctx) {
 			c.Unresolved("C11.1", "Cache."+s.name, "no check/insert call")
 			continue
 		}
-		var missMsg, missSig, missSigners, missCount []string
+		var missMsg, missSig, missSigners, missCount, missSizes []string
 		for _, site := range sites {
 			d := ic.deps(site.Common().Args[1])
 			hasAll := func(tags []string) bool {
@@ -101,6 +101,9 @@ func checkC11(c *Ctx) {
 			if !counted {
 				missCount = append(missCount, where)
 			}
+			if !d["Sizes("+sb+")"] {
+				missSizes = append(missSizes, where)
+			}
 		}
 		what := map[string]string{"Sign": "the message", "Verify": "the message", "BatchVerify": "every per-signer message and its signer id (hash result reaching the key)"}[s.name]
 		c.Check(len(missMsg) == 0, "C11.1/message", "Cache."+s.name, p.FuncPos(fn),
@@ -114,6 +117,9 @@ func checkC11(c *Ctx) {
 		c.Check(len(missCount) == 0, "C11.1/delimited", "Cache."+s.name, p.FuncPos(fn),
 			"every key incorporates the number of claimed signers, which separates the variable-length id list from the signature bytes",
 			"cache key does not incorporate the number of claimed signers (Participants().Len()): the id list runs into the signature bytes, so bytes moved between the two give a different claimed signer set the same key; "+join(missCount))
+		c.Check(len(missSizes) == 0, "C11.1/entries", "Cache."+s.name, p.FuncPos(fn),
+			"every key incorporates the sizes of the individual signatures (Sizes()), which ToBytes of a multi-signature concatenates without separators",
+			"cache key does not incorporate the sizes of the individual signatures: bytes moved from one signer's signature to its neighbour's leave the key unchanged, so a certificate whose signatures are all malformed is accepted from the entry of the genuine one; "+join(missSizes))
 
 		// C11.2 verdict discipline
 		if s.name != "Sign" {
@@ -298,6 +304,30 @@ func c11Pairing(c *Ctx) {
 			"b = append(b, sig[i].ToBytes()...) for i ascending over the receiver", "ToBytes is not the concatenation of the entries in slice order")
 	} else {
 		c.Unresolved("C11.6", "Multi.ToBytes", "anchor missing")
+	}
+	if fn := p.Method("security/crypto", "Multi", "Sizes"); fn != nil {
+		k := NewKeyer(p, fn)
+		lenOfEntry := regexp.MustCompile(`^builtin len\(invoke \(hs/security/crypto\.Signature\)\.ToBytes\(p0\[\((phi@b\d+i\d+) \+ c:1\)\]\)\)`)
+		ok, n := false, 0
+		eachInstr(fn, func(in ssa.Instruction) {
+			call, isCall := in.(*ssa.Call)
+			if !isCall {
+				return
+			}
+			if b, isB := call.Call.Value.(*ssa.Builtin); !isB || b.Name() != "append" || len(call.Call.Args) != 2 {
+				return
+			}
+			n++
+			var elem string
+			storedInto(sliceBase(call.Call.Args[1]), func(e ssa.Value) bool { elem = k.Key(e); return false })
+			if m := lenOfEntry.FindStringSubmatch(elem); m != nil && rangeIdx(fn, m[1], k) {
+				ok = true
+			}
+		})
+		c.Check(ok && n == 1, "C11.6", "Multi.Sizes: the sizes of the entries in slice order", p.FuncPos(fn),
+			"sizes = append(sizes, len(sig[i].ToBytes())) for i ascending over the receiver: the split points of ToBytes", "Sizes is not the list of len(sig[i].ToBytes()) in slice order")
+	} else {
+		c.Unresolved("C11.6", "Multi.Sizes", "anchor missing: the cache key cannot tell the signers' signatures apart")
 	}
 	if fn := p.Method("security/crypto", "Multi", "Participants"); fn != nil {
 		k := NewKeyer(p, fn)
